@@ -75,8 +75,23 @@ fn main() {
             println!("ok");
         }
         "compiledir" => {
-            // Compile::directory over a directory tree: prints "ok" or "err\t<message>"
-            match Compile::directory(&args[2]).run() {
+            // Compile::directory over a directory tree [derives|-] [prefix]: prints "ok" or "err\t<message>"
+            let mut c = Compile::directory(&args[2]);
+            let ctx = std::env::var("VERIF_CTX").ok();
+            let ctx_first = std::env::var("VERIF_CTX_ORDER").map(|o| o == "first").unwrap_or(false);
+            if let (Some(t), true) = (&ctx, ctx_first) {
+                c = c.user_context_type(t);
+            }
+            if let Some(d) = args.get(3).and_then(|a| derives(a)) {
+                c = c.derives(d);
+            }
+            if let (Some(t), false) = (&ctx, ctx_first) {
+                c = c.user_context_type(t);
+            }
+            if let Some(p) = args.get(4) {
+                c = c.prefix(p.clone());
+            }
+            match c.run() {
                 Ok(()) => println!("ok"),
                 Err(e) => println!("err\t{}", format!("{e:#}").replace('\n', " ")),
             }
